@@ -104,6 +104,8 @@ class Side:
             v = next(self.counter)
             self.cells.append((path, None, 0, 8, v))
             return v
+        if t == "struct" and node.get("px"):
+            return self.build_proxy(node, path)
         shape = _shape(node)
         sig = Signal(shape)
         root = sig if t == "leaf" else sig.as_value()
@@ -114,6 +116,43 @@ class Side:
             self.cells.append((p, root, off, w, v))
         self.roots.append((root, raw))
         return sig
+
+
+def _build_proxy(self, node, path):
+    """A struct operand given as an element of a node["px"]-dimensional amaranth `Array` of struct signals selected by
+    index signals (an ArrayProxy).  For the specification this is the struct itself; the cells of the elements that
+    are NOT selected are tracked under paths marked "~": on the left they must stay unassigned, on the right their
+    (distinct) values must not be copied."""
+    from amaranth import Signal, Array
+    dims = node["px"]
+    shape = _shape(node)
+    sel = [1, 0, 1][:dims] if self.right else [0] * dims      # left index signals are not driven: they read 0
+    idx = [Signal(1) for _ in range(dims)]
+    for sg, v in zip(idx, sel):
+        self.roots.append((sg, v))
+
+    def mk(pos):
+        if len(pos) == dims:
+            sig = Signal(shape)
+            root = sig.as_value()
+            p0 = path if list(pos) == sel else path + ["~" + "".join(map(str, pos))]
+            raw = 0
+            for p, off, w in _layout_cells(node, shape, p0, 0):
+                v = next(self.counter) if self.right else 0
+                raw |= v << off
+                self.cells.append((p, root, off, w, v))
+            self.roots.append((root, raw))
+            return sig
+        return Array([mk(pos + (i,)) for i in range(2)])
+
+    arr = mk(())
+    out = arr
+    for sg in idx:
+        out = out[sg]
+    return out
+
+
+Side.build_proxy = _build_proxy
 
 
 def _conv_name(n):
@@ -135,7 +174,7 @@ def count_cells(node):
     if t in ("leaf", "const", "int", "union"):
         return 1
     if t in ("struct", "dict"):
-        return sum(count_cells(c) for c in node["f"].values())
+        return sum(count_cells(c) for c in node["f"].values()) * (2 ** node.get("px", 0) if t == "struct" else 1)
     if t == "array":
         return node["n"] * count_cells(node["e"])
     return sum(count_cells(c) for c in node["e"])
@@ -403,6 +442,10 @@ def well_formed(node, left, in_layout=False):
     return all(well_formed(c, left, False) for c in cs)
 
 
+def _plain_struct(node):
+    return node["t"] == "leaf" or (node["t"] == "struct" and all(_plain_struct(c) for c in node["f"].values()))
+
+
 def random_case(rng):
     while True:
         if rng.random() < 0.5:
@@ -417,8 +460,25 @@ def random_case(rng):
             r = rand_arg(rng, 2, True)
         if not (well_formed(l, True) and well_formed(r, False)):
             continue
+        # some standalone struct operands (top level, or directly inside a dict / list) are handed over as
+        # ArrayProxy values: elements of 1-3 dimensional Arrays of struct signals indexed by signals
+        for side in (l, r):
+            if rng.random() < 0.2:
+                cands = [side] if side["t"] == "struct" else \
+                    [c for c in (side["f"].values() if side["t"] == "dict" else side["e"] if side["t"] == "list" else [])
+                     if c["t"] == "struct"]
+                # only structs made of leaves and structs: an ArrayProxy over views with array / union members is
+                # not supported by assign (arrayproxy_fields reads .members of every element layout)
+                cands = [c for c in cands if _plain_struct(c)]
+                if cands:
+                    rng.choice(cands)["px"] = rng.choice([1, 2, 3])
         if count_cells(r) > MAX_CELLS or count_cells(l) > 40:
-            continue
+            for side in (l, r):
+                for c in [side] + list(side.get("f", {}).values() if isinstance(side.get("f"), dict) else []) + list(side.get("e", []) if isinstance(side.get("e"), list) else []):
+                    if isinstance(c, dict):
+                        c.pop("px", None)
+            if count_cells(r) > MAX_CELLS or count_cells(l) > 40:
+                continue
         return l, r, rand_fields(rng, l, r)
 
 
